@@ -5,6 +5,7 @@ import (
 	"go/token"
 	"go/types"
 	"math/big"
+	"strings"
 
 	"golang.org/x/tools/go/ssa"
 )
@@ -141,6 +142,13 @@ func (f *frame) unop(x *ssa.UnOp, st State, reach string) State {
 		}
 		v := c.load(st.heap, l)
 		c.assumeRanges(v, x.Type(), reach, st.alloc.term())
+		// references read from the entry heap denote objects that existed at entry
+		sh := shapeOf(x.Type())
+		for i := range sh {
+			if i < len(v) && sh[i].Kind == KRef && isEntryHeapTerm(v[i]) {
+				c.assume(reach, lt(v[i], "|alloc@0|"))
+			}
+		}
 		f.setVal(x, v)
 	case token.NOT:
 		f.setVal(x, Val{not(f.get(x.X)[0])})
@@ -915,4 +923,17 @@ func (c *Ctx) mulTerm(a, b string) string {
 		implies(and(ge(ab, "1"), ge(bb, "1")), and(ge(r, ab), ge(r, bb)))))
 	c.mulMemo[key] = r
 	return r
+}
+
+// isEntryHeapTerm: the term reads only entry-state memory arrays (names ending in @0).
+func isEntryHeapTerm(t string) bool {
+	if !strings.HasPrefix(t, "(select ") || !strings.Contains(t, "@0|") {
+		return false
+	}
+	for _, bad := range []string{"|h!", "|hm!", "@call_", "@loop", "@ct_", "@builtin", "@select", "@append", "|ext_", "|phi!", "|lp_"} {
+		if strings.Contains(t, bad) {
+			return false
+		}
+	}
+	return true
 }
